@@ -700,7 +700,12 @@ class Expander:
             elif k == "attr":
                 spec["attrs"].append(w[1])
             elif k == "head":
-                spec["head"] = raw_block(c)
+                spec["head"] = (spec["head"] + "\n" if spec["head"] else "") + raw_block(c)
+            elif k == "touch":
+                # touch <spec expr>: mention a ghost function in the body so that its definition is in the solver's context
+                # (Verus 0.2026.09.13 sometimes prunes the per-impl definition of a trait's spec fn from the query of that
+                # impl's own exec fn; a mention in the body makes it reachable). Adds no assumption.
+                spec["head"] = (spec["head"] + "\n" if spec["head"] else "") + "proof { let _vx_touch = %s; }" % w[1].strip()
             elif k == "nloops":
                 spec["nloops"] = int(w[1])
             elif k == "sig":
